@@ -68,37 +68,49 @@ def run(ctx):
 def rule1(ctx, prog, flows, cub, full, basic):
     ctx.rule("R-C08-1", "the fast kernel is used only when target=None, cutoff=None, first_only=false, with_paths=false; call sites pass their own options in order")
     fl = flows.of(cub)
-    want = {("target", "none"), ("cutoff", "none"), ("first_only", False), ("with_paths", False)}
-    defs = cub.assigns_to(0)
-    n_true = 0
-    for (bb, d) in defs:
-        rv = getattr(d, "rv", None)
-        if rv is not None and rv.k == "use" and rv.ops[0].is_const() and rv.ops[0].const_int() == 0:
-            continue  # `false`
-        conds = set()
-        for (t, v, a) in controlling_atoms(fl, bb):
-            c = canon_condition(t, v)
-            conds.add(c)
-        # the final expression
-        if rv is not None:
-            if rv.k == "use" and rv.ops[0].is_const():
-                pass  # `true`
-            else:
-                from flow import _LocalOperand
+    # truth table of can_use_basic by path-sensitive evaluation (predicate abstraction): the atoms are the four
+    # option tests, however the expression is written (`a && b`, `!(x || y)`, nested ifs, early returns)
+    import pathsens
 
-                dd = panic.norm(fl.describe(_LocalOperand(0, "bool"), depth=6)) if False else None
-                if rv.k == "binop":
-                    t = ("binop", rv.j["op"], panic.norm(fl.describe(rv.ops[0], depth=6)), panic.norm(fl.describe(rv.ops[1], depth=6)))
-                elif rv.k == "unop":
-                    t = ("unop", rv.j["op"], panic.norm(fl.describe(rv.ops[0], depth=6)))
-                else:
-                    t = panic.norm(fl.describe(rv.ops[0], depth=6)) if rv.ops else None
-                conds.add(canon_condition(t, True) if t else None)
+    ex = pathsens.Explorer(cub, fl, prog)
+    ex.run()
+    WANT = {"is_some(target)": False, "is_some(cutoff)": False, "first_only": False, "with_paths": False}
+    n_true = 0
+    problems = []
+    if ex.truncated or not ex.exit_vals:
+        ctx.undecided("R-C08-1", "truth-table", "can_use_basic could not be evaluated path-sensitively", loc_str(cub.span))
+    for (bb, facts, val) in ex.exit_vals:
+        fd = {k: v for k, v in dict(facts).items() if isinstance(k, str)}
+        outcomes = []
+        if val is None:
+            problems.append("the result on some path is not a boolean combination of the option tests")
+            continue
+        if val[0] == "const":
+            outcomes.append((fd, bool(val[1])))
+        elif val[0] == "atom":
+            for tv in (False, True):
+                if val[1] in fd and fd[val[1]] != tv:
+                    continue
+                f2 = dict(fd)
+                f2[val[1]] = tv
+                outcomes.append((f2, tv != val[2]))
         else:
-            t = ("call", d.callee.short, tuple(panic.norm(fl.describe(a, depth=6)) for a in d.args))
-            conds.add(canon_condition(t, True))
-        n_true += 1
-        ctx.require(conds == want, "R-C08-1", "truth-table", "can_use_basic is true exactly under %s" % sorted(want, key=str), "can_use_basic can be true under %s (expected %s): the fast kernel would be used although an option restricts or extends the answer" % (sorted(conds, key=str), sorted(want, key=str)), loc_str(d.span))
+            problems.append("the result on some path is not a boolean combination of the option tests")
+            continue
+        for (f2, res) in outcomes:
+            unknown = sorted(k for k in f2 if k not in WANT)
+            if unknown:
+                problems.append("the result depends on %s" % unknown)
+                continue
+            if res:
+                n_true += 1
+                missing = sorted(k for k, v in WANT.items() if f2.get(k) is not v)
+                if missing:
+                    problems.append("true although %s is not established" % missing)
+            else:
+                if all(f2.get(k, v) is v for k, v in WANT.items()) and not any(k in f2 and f2[k] is not v for k, v in WANT.items()):
+                    problems.append("false on a path on which no option is set (%s)" % f2)
+    ctx.require(not problems and n_true >= 1, "R-C08-1", "truth-table", "can_use_basic is true exactly when target and cutoff are None and first_only, with_paths are false", "can_use_basic deviates from its truth table: %s -- the fast kernel would be used although an option restricts or extends the answer (or never)" % "; ".join(sorted(set(problems))[:3]), loc_str(cub.span))
     ctx.floor("R-C08-1", "non_false_results", n_true, 1)
     # call sites of can_use_basic and of the fast kernel
     n_sites = 0
@@ -195,6 +207,22 @@ def rule3(ctx, prog, flows, full):
         sl = fl.slice_local(fl._op_reads(blk.term.discr))
         hit = sorted(full.local_name(x[1]) for x in sl & forbidden)
         if hit:
+            # a loop over the collected paths (copying them) may of course test `paths`: it is harmless as long
+            # as nothing it controls touches a distance, a seen mark, the heap or the tie counter
+            protected = {L(named[nm][0]) for nm in ("dist", "seen", "fringe", "count")}
+            touched = set()
+            for b2 in full.normal_blocks():
+                if not any(a == blk.i for (a, s_) in full.transitive_control_deps(b2.i)):
+                    continue
+                for st in b2.stmts:
+                    if st.k == "assign":
+                        objs = set(fl.resolve(st.lhs)) if st.lhs.has_deref() else {L(st.lhs.local)}
+                        touched |= objs & protected
+                if b2.term.k == "call":
+                    for a_ in b2.term.args:
+                        touched |= set(fl.mut_reach(a_)) & protected
+            if not touched:
+                continue
             ctx.violation("R-C08-3", "decision|" + fmt_desc(panic.shape(panic.norm(at["test"])))[:60], "the branch on %s depends on %s" % (fmt_desc(at["test"])[:80], hit), loc_str(blk.term.span))
     ctx.ok("R-C08-3", "decisions", "%d branch decisions other than the with_paths tests inspected" % n_sw, loc_str(full.span))
     ctx.floor("R-C08-3", "branch_decisions", n_sw, 4)
